@@ -1292,6 +1292,7 @@ class TorProcessProtocol(protocol.ProcessProtocol):
         A timeout was supplied during setup, and the time has run out.
         """
         self._did_timeout = True
+        self._timeout_delayed_call = None  # it has fired; nothing to cancel
         try:
             self.transport.signalProcess('TERM')
         except error.ProcessExitedAlready:
